@@ -217,4 +217,11 @@ theorem C32_gen_no_cli_flags :
       [("CrossChainUTXOFreezeHeight", ""), ("CrossChainUTXORestrictionHeight", ""),
        ("FrozenAddresses", "json:\"FrozenAddresses\""), ("ActiveNet", "json:\"ActiveNet\"")] := by decide
 
+/-- the coordinated frozen entry is pinned against the operator documentation
+    (`docs/config.json.md`): same address, same start height -/
+theorem C32_gen_documented_list :
+    Gen.C32.docFrozenAddresses = Gen.C32.mainnetFrozen.map (·.1) ∧
+    Gen.C32.docLiterals.contains ("DisableStartHeight", 2256110) = true ∧
+    Gen.C32.mainnetFrozen.map (·.2.1) = [2256110] := by decide
+
 end ElaVerif.C32
